@@ -71,6 +71,7 @@ class TU:
         for f in self.fns:
             pl[f.skey].add(f.line)
         self.overloads = {k: sorted(v, key=lambda ln, k=k: (sig.get((k, ln), ''), ln)) for k, v in pl.items() if len(v) > 1}
+        self.pattern_sig = sig
         self.class_by_q = {c['q']: c for c in self.classes}
         self.classes_by_key = defaultdict(list)
         for c in self.classes:
@@ -539,7 +540,16 @@ class TU:
                     done = True
                     continue
                 if not selfs and not subst and not tags:
-                    continue      # `this->g(args)`: both names are real member functions; rules follow such helpers themselves
+                    # `this->g(args)`: both names are real member functions and rules follow such helpers themselves - except when g is a
+                    # non-public *generic pass-through* (`template <typename ...A> void g(A & ...a)`: every parameter a deduced lvalue
+                    # reference) with this one call site that receives exactly f's parameters: then g *is* f's body. (Named steps such as
+                    # dispatch -> doDispatch keep their own identity: rules are anchored in them.)
+                    cs_g = [(x, m) for (x, m) in self.callers().get(g.id, []) if not (x is f and m == n)]
+                    if not (g.access in ('private', 'protected') and f.kind in ('method', 'operator') and not cs_g and seen == fpar and len(g.params) == len(f.params)
+                            and g.d.get('targs') and all(pp.get('pass') == 'lref' for pp in g.params)      # a generic pass-through `g(A & ...a)`
+                            and '&&' not in self.pattern_sig.get((g.skey, g.line), '&&')                     # ... declared so (no forwarding references)
+                            and os.environ.get('EPP_NO_SOLE_FORWARD') is None and g.name != f.name):
+                        continue
                 # g becomes f
                 self.collapsed.append((f.skey, g.skey, f.where()))
                 if os.environ.get('EPP_DEBUG_COLLAPSE'):
